@@ -120,7 +120,11 @@ func cmdSpvSem(c *ctx) {
 		}
 		c.line("cases.txt", line)
 		c.line("src.txt", q(m.wgsl()))
-		c.line("tags.txt", fmt.Sprintf("%s v%d.%d debug=%v loopbound=%v", knob, opts.Version.Major, opts.Version.Minor, opts.Debug, opts.ForceLoopBounding))
+		shape := ""
+		if hasMultiSpill(m) {
+			shape = " spill2"
+		}
+		c.line("tags.txt", fmt.Sprintf("%s v%d.%d debug=%v loopbound=%v%s", knob, opts.Version.Major, opts.Version.Minor, opts.Debug, opts.ForceLoopBounding, shape))
 		if c.stats["shrunk"] < 8 {
 			if d == nil {
 				d = startDrv("sem")
